@@ -65,6 +65,12 @@ def cases(tier, seed):
     for free_g in (1, 2, 3):
         for sizes in ([0], ["0ml"], [0, 1], [1, 0], [1, 0, 1], [0, 0], ["0ml", 0, 1]):
             yield {"k": "xfer", "skind": "dsk", "free": free_g, "sizes": sizes}
+    # a file whose length does not fit the 16-bit field of its header, offered after `pre` one-granule files: it is stored exactly or
+    # refused leaving the image as it was, and the next file that fits is stored
+    for kind in ("ML", "BAS", "DATB"):
+        for n in (65535, 65536, 70000):
+            for pre in (0, 3):
+                yield {"k": "toolong", "kind": kind, "n": n, "pre": pre}
     # synthetic configurations
     places = {"lowest": lambda f: list(range(f)), "highest": lambda f: list(range(68 - f, 68)),
               "around27": lambda f: sorted(range(68), key=lambda g: (abs(g - 27), g))[:f],
@@ -124,7 +130,35 @@ def check_case(case):
 
     steps = 0
     stored = 0
-    if case["k"] == "fill":
+    if case["k"] == "toolong":
+        cell = "toolong|{}|{}|pre{}".format(case["kind"], case["n"], case["pre"])
+        df = DiskFile()
+        cur = bytes(df.get_buffer())
+        seq = [c07.fspec("ML", 2304 - 15, "P{}".format(j)) for j in range(case["pre"])]
+        seq.append(c07.fspec(case["kind"], case["n"], "LONG", "DAT"))
+        seq += [c07.fspec("ML", 3000, "NEXT"), c07.fspec("ASC", 10, "LAST", "TXT")]
+        for s in seq:
+            raised = None
+            try:
+                df.add_file(C.to_coco(s))
+            except Exception as e:
+                raised = repr(e)[:100]
+            new = bytes(df.get_buffer())
+            steps += 1
+            if s["name"] == "LONG" and s["n"] > 65535:
+                # the length cannot be written into the 16-bit field: a refusal is legitimate - and must leave the image as it was;
+                # a tool that stores it must account for it exactly
+                if raised is not None:
+                    if new != cur:
+                        probs = dskfs.fsck(new)
+                        bad(cell, "image changed by a refused addition", "byte-identical", probs[0][1] if probs else "bytes differ")
+                        break
+                    continue
+            if not step_check(cur, new if raised is None else None, s, cell + "|" + s["name"].rstrip("0123456789"), raised, bad):
+                break
+            stored += 1
+            cur = new
+    elif case["k"] == "fill":
         order = c07.order_by_name(case["fill"])
         cell = "fill|{}|{}|{}|{}".format("+".join(map(str, case["sizes"])), "exact" if case["exact"] else "inside", case["fill"], case["via"])
         if "kind" in case:
